@@ -215,6 +215,17 @@ PROPS["C13"] = {
     ],
 }
 
+PROPS["C08"] = {
+    "technique": "grammar-based property testing (rapid) of JSON-RPC bodies / HTTP paths and of gRPC message shapes against in-process servers with 0, 1 and 3 loaded epochs; thorough: Go native coverage-guided fuzzing of the HTTP body",
+    "level_text": "Requests are generated from a grammar: the 8 JSON-RPC methods with params missing / null / object / wrong arity / wrong types / huge, negative and fractional numbers / malformed base58 / unknown options, batch arrays, truncated and non-JSON bodies, oversized bodies, GET/PUT/DELETE, /health, /metrics, /api/v1/slot-to-cid/<x>, /api/v1/sig-to-cid/<x>; gRPC GetBlock/GetTransaction/GetBlockTime/GetVersion/StreamBlocks/StreamTransactions messages with absent optional fields, malformed account strings, signatures of wrong length, ranges across and outside epochs, start > end, and sequences on the bidirectional Get stream. Each request runs against servers built once per process (no epochs, one epoch, three epochs with address indexes); a panic, a missing response or a failing follow-up probe request is a violation. A crash in a goroutine spawned by a handler kills the process: the driver attributes it to the request recorded before the call. Exploration level.",
+    "level_note": "Slot ranges are kept below ~433000 slots (a request with an end slot near 2^64 keeps StreamBlocks scanning until the client cancels; that is not a crash and is not judged). Crashes that need a corrupted archive belong to C12. The proxy path is exercised only with no proxy configured.",
+    "rule": ("rapid draws protocol, server (0/1/3 epochs), shape class and values from pools of real slots/signatures/addresses plus hostile constants; non-trivial = request other than a plain valid call (ill-typed/missing argument, hostile path, gRPC message); distinct by request hash"),
+    "assumptions": ["handlers are invoked in-process (fasthttp.RequestCtx.Init, fake grpc.ServerStream); the network stack and the generated gRPC glue are not exercised"],
+    "units": [
+        {"name": "requests", "pkg": ".", "run": "TestVfC08", "checks": T(20000, 1000000), "shards": T(8, 16), "timeout": T(900, 3000), "transforms": GSFA_FASTPOLL, "env": ROOT_ENV, "crash_is_violation": True, "shrinktime": "20s"},
+    ],
+}
+
 
 # properties not (yet) claimed by a check; kept current by hand
 NOT_APPLICABLE = [
